@@ -118,6 +118,29 @@ CORPUS = [
      [((0, 0, 0), 'm1_-1.0'), ((1.5, 0, 0), 'm2_-7.8'), ((2.5, 0, 0), 'm1_-1.0'),
       ((3.5, 0, 0), 'm0')],
      {'m1_-1.0', 'm2_-7.8'}),
+    # repaired in /repo bd76c8d and ac9102a: zeros in front of an exponent, and
+    # a void copy made by LIKE n BUT MAT=0
+    ('exponent-padding-and-void-copy', '''corpus padding void
+1 1 -1.5e-3 -1 imp:n=1
+2 1 -1.50e-3 1 -2 imp:n=1
+3 1 -1.500-3 2 -3 imp:n=1
+4 2 .50D1 3 -4 imp:n=1
+5 0 4 -5 fill=1 imp:n=1
+6 0 5 imp:n=0
+7 like 8 but mat=0 u=1
+8 1 -1.5e-3 -6 u=9 imp:n=1
+
+1 so 1
+2 so 2
+3 so 3
+4 so 4
+5 so 5
+6 so 50
+
+''' + MATS, [],
+     [((0, 0, 0), 'm1_-1.5e-3'), ((1.5, 0, 0), 'm1_-1.5e-3'),
+      ((2.5, 0, 0), 'm1_-1.5e-3'), ((3.5, 0, 0), 'm2_.5e1'), ((4.5, 0, 0), 'm0')],
+     {'m1_-1.5e-3', 'm2_.5e1'}),
     # the two spellings repaired in /repo 6d1467b
     ('repaired-spellings', '''corpus repaired
 1 1 -1.0 -1 imp:n=1
